@@ -21,6 +21,15 @@ PROP = 'C18'
 LEVEL = 'proof'
 
 
+def _native(call):
+    import os
+    here = os.path.dirname(os.path.dirname(os.path.abspath(__file__)))
+    return "import sys; sys.path.insert(0, %r)\nfrom native import c18\nc18.%s\n" % (here, call)
+
+
+from pyvc.inproc import InProc  # noqa: E402  (obligations are ground / tiny QF queries: decided in-process)
+
+
 class FileV(Sym):
     def __init__(self, S):
         self.S = S
@@ -35,11 +44,11 @@ class FileV(Sym):
 
     def getattr(self, ctx, name):
         if name == 'seek':
-            def seek(ctx, p):
-                if not (isinstance(p, int) and p == 0):
-                    raise Unsupported('seek(%r)' % (p,))
-                self.pos = 'start'
-                self.S.events.append('seek0')
+            def seek(ctx, p, whence=0):
+                if not (isinstance(p, int) and p == 0 and whence in (0, 2)):
+                    raise Unsupported('seek(%r, %r)' % (p, whence))
+                self.pos = 'start' if whence == 0 else 'end'
+                self.S.events.append('seek0' if whence == 0 else 'seek-end')
             return seek
         raise Unsupported('file.' + name)
 
@@ -53,7 +62,12 @@ class LogV(Sym):
 
     def getattr(self, ctx, name):
         if name == 'replay':
-            return lambda ctx: self.S.events.append('replay:' + self.tag)
+            def replay(ctx):
+                if hasattr(self.S, 'replays'):
+                    self.S.replays.append(self.tag)
+                else:
+                    self.S.events.append('replay:' + self.tag)
+            return replay
         raise Unsupported('log.' + name)
 
     def truth(self, ctx):
@@ -66,7 +80,10 @@ class LogV(Sym):
         pass
 
 
-class Wrapper(Contract):
+INITIAL = {}
+
+
+class Wrapper(InProc, Contract):
     prop = PROP
     fn = 'cache:function.wrapper'
 
@@ -79,7 +96,10 @@ class Wrapper(Contract):
         stored_value, stored_log = SOpaque('stored-value'), LogV(S, 'stored')
         result_value = SOpaque('func-result')
         S.stored_value, S.result_value = stored_value, result_value
-        f = FileV(S)
+        sc0 = INITIAL.get(self.scenario, self.scenario)
+        S.content = {'disabled': [], 'hit': [('record', (stored_value, stored_log))], 'hit-old': [('record', (stored_log, False, stored_value))],
+                     'miss-old-fail': [('record', (stored_log, True, stored_value))], 'miss-eof': [], 'miss-unpickling': [('garbage', 'UnpicklingError')],
+                     'miss-index': [('garbage', 'IndexError')]}[sc0]
 
         def func(ctx, *a, **k):
             S.func_calls.append((a, k, list(S.cache_state)))
@@ -90,21 +110,34 @@ class Wrapper(Contract):
             def sym_getattr(s, ctx, name):
                 if name == 'load':
                     def load(ctx, fobj):
+                        # external contract of pickle.load on a file positioned at the START of a pickle: it returns
+                        # that object and reads no further than its STOP opcode (whatever follows is not looked at);
+                        # on an empty file EOFError; on bytes that are no pickle one of the classes the code catches
+                        # (ASSUMED, see TRUSTED).  At any other position nothing is promised.
                         S.events.append('load@' + fobj.pos)
+                        at_start = fobj.pos == 'start'
                         fobj.pos = 'after-load'
-                        sc = self.scenario
-                        if sc == 'hit':
-                            return (stored_value, stored_log)
-                        if sc == 'hit-old':
-                            return (stored_log, False, stored_value)
-                        if sc == 'miss-old-fail':
-                            return (stored_log, True, stored_value)
-                        raise PyRaise({'miss-eof': 'EOFError', 'miss-unpickling': 'UnpicklingError', 'miss-index': 'IndexError'}[sc])
+                        if not at_start and not S.content:
+                            raise PyRaise('EOFError')
+                        first = S.content[0] if S.content else None
+                        if first is None:
+                            raise PyRaise('EOFError')
+                        if first[0] == 'record':
+                            return first[1]
+                        raise PyRaise(first[1])
                     return load
                 if name == 'dump':
                     def dump(ctx, obj, fobj):
+                        # external contract of pickle.dump: writes one complete pickle at the current position and does
+                        # NOT truncate: bytes of an older, longer entry beyond it stay in the file (the 'stale-tail')
                         S.dumped.append((obj, fobj.pos))
                         S.events.append('dump@' + fobj.pos)
+                        if fobj.pos == 'start':
+                            S.content[:] = [('record', obj)] + ([('stale-tail',)] if S.content else [])
+                        elif fobj.pos in ('after-load', 'end'):
+                            S.content.append(('record', obj))
+                        else:
+                            raise Unsupported('dump at position %s' % fobj.pos)
                         fobj.pos = 'after-dump'
                     return dump
                 if name == 'UnpicklingError':
@@ -129,7 +162,13 @@ class Wrapper(Contract):
                 if name == 'touch':
                     return lambda ctx: S.events.append('touch')
                 if name == 'open':
-                    return lambda ctx, mode: (S.events.append('mode:' + mode), f)[1]
+                    def open_(ctx, mode):
+                        if mode != 'r+b':
+                            raise Unsupported('open mode %r' % (mode,))
+                        S.events.append('mode:' + mode)
+                        S.file = FileV(S)
+                        return S.file
+                    return open_
                 raise Unsupported('path.' + name)
 
         class Caching:
@@ -169,8 +208,12 @@ class Wrapper(Contract):
         S.globals = {'caching': Caching(), 'func': func, 'canonicalize': lambda ctx, *a, **k: (a, k), 'func_key': ('FUNCKEY',), 'hashlib': HL(), 'types': Ty(),
                      'pickle': Pickle(), 'log': Log(), 'disable': lambda ctx: Disable(), '_lock_file': lambda ctx, fobj: S.events.append('lock'),
                      'sorted': _sorted_kwargs}
-        S.file = f
         return S
+
+    def replay(self, ob):
+        if not self.replay_once(ob):
+            return None
+        return _native('run_function_twice(%r, %r)' % (self.scenario if self.scenario in INITIAL else None, ob.clause))
 
     def ensures(self, cx, S, result):
         sc = self.scenario
@@ -197,6 +240,46 @@ class Wrapper(Contract):
             and isinstance(k.sha.updates[-1], SortedBlocks) and sorted(k.sha.updates[-1].names) == sorted(S.kwargs) and all(v is S.kwargs[n] for n, v in zip(k.sha.updates[-1].names, k.sha.updates[-1].values))
         out.append(('key-covers-function-and-all-arguments', B(bool(key_ok))))
         return out
+
+
+class WrapperTwice(Wrapper):
+    """Two consecutive calls of cache.function.wrapper with the same arguments on one cache file whose initial content is a
+    LONGER stale entry (old-format entry flagged `fail`, or bytes that do not unpickle) or nothing.  The first call
+    recomputes and dumps at offset 0 WITHOUT truncating (the file then holds the new pickle followed by the tail of the
+    stale one); the second call must be served from that entry: same value, recorded log replayed, func not run again,
+    nothing written.  Relies only on: pickle.load at the start of a pickle returns it and ignores what follows."""
+    fn = 'cache:function.wrapper'
+
+    def __init__(self, scenario):
+        self.scenario = scenario
+        self.label = 'twice-' + scenario
+
+    def body(self, cx, S, call):
+        r1 = call(self.fn, *S.args, **S.kwargs)
+        S.mark = (len(S.events), len(S.func_calls), len(S.dumped))
+        S.first_result = r1
+        S.first_key = S.key
+        return call(self.fn, *S.args, **S.kwargs)
+
+    def ensures(self, cx, S, result):
+        B = z3.BoolVal
+        ne, nf, nd = S.mark
+        ev2 = S.events[ne:]
+        rec = S.content[0] if S.content else None
+        entry_ok = rec is not None and rec[0] == 'record' and isinstance(rec[1], tuple) and len(rec[1]) == 2 and rec[1][0] is S.result_value \
+            and isinstance(rec[1][1], LogV) and rec[1][1].tag == 'new'
+        tail_ok = S.content[1:] == ([('stale-tail',)] if INITIAL[self.scenario] != 'miss-eof' else [])
+        return [('first-call-computes', B(S.first_result is S.result_value and nf == 1 and nd == 1)),
+                ('new-entry-at-offset-0-stale-tail-left-behind', B(bool(entry_ok and tail_ok))),
+                ('second-call-returns-the-same-value', B(result is S.result_value)),
+                ('second-call-does-not-run-func', B(len(S.func_calls) == 1)),
+                ('second-call-replays-recorded-log', B('replay:new' in ev2)),
+                ('second-call-writes-nothing', B(len(S.dumped) == 1)),
+                ('second-call-uses-the-same-file', B(S.key is not None and isinstance(S.first_key, KeyHex) and isinstance(S.key, KeyHex)
+                                                     and S.key.sha.init == S.first_key.sha.init and len(S.key.sha.updates) == len(S.first_key.sha.updates)))]
+
+
+INITIAL.update({'over-longer-old-format-entry': 'miss-old-fail', 'over-longer-garbage': 'miss-unpickling', 'into-empty-file': 'miss-eof'})
 
 
 class Sha(Sym):
@@ -253,7 +336,7 @@ def _sorted_kwargs(ctx, it):
     return out
 
 
-class KeyOfFunction(Contract):
+class KeyOfFunction(InProc, Contract):
     """cache.function: func_key = sha1('<module>.<qualname>:<version>') -- all three enter the key."""
     prop = PROP
     fn = 'cache:function'
@@ -311,14 +394,399 @@ class EncodedV(Sym):
         self.f = f
 
 
+# ------------------------------------------------------------------------------------------------ Recursion.__iter__
+
+K_ITEMS = 4  # the consumer takes at most this many items and then abandons the iterator (bounded)
+MISSING, EMPTY, TRUNC_UNPICKLING, TRUNC_INDEX, STOPMARK, STALE_VALID = 0, 1, 2, 3, 4, 5
+
+
+class ItemHandle(Sym):
+    """An open item file (one per `open`); position is 'start' | 'after-load' | 'after-dump'."""
+
+    def __init__(self, S, index):
+        self.S, self.index, self.pos = S, index, 'start'
+
+    def sym_enter(self, ctx):
+        self.S.events.append(('enter', self.index))
+        return self
+
+    def sym_exit(self, ctx):
+        self.S.events.append(('close', self.index))
+
+    def getattr(self, ctx, name):
+        if name == 'seek':
+            def seek(ctx, p, whence=0):
+                if not (isinstance(p, int) and p == 0 and whence == 0):
+                    raise Unsupported('seek(%r, %r)' % (p, whence))
+                self.pos = 'start'
+                self.S.events.append(('seek0', self.index))
+            return seek
+        raise Unsupported('file.' + name)
+
+    def truth(self, ctx):
+        return True
+
+
+class GenV(Sym):
+    """The generator `resume_index(history, index)` returns.  ASSUMPTION (the docstring's requirement on subclasses): given the
+    last min(index, length) values x[index-h..index) it continues the sequence x[index], x[index+1], ... that the recursion
+    yields from scratch, ends (StopIteration) or raises (GenError) at position T.  Given any OTHER history it yields
+    different values."""
+
+    def __init__(self, S, start, faithful):
+        self.S, self.pos, self.faithful, self.done = S, start, faithful, False
+
+    def sym_next(self, ctx):
+        S = self.S
+        p = self.pos
+        if self.done:
+            S.nexts.append((p, list(S.cache_state), 'after-end'))
+            raise PyRaise('StopIteration')
+        if ctx.branch(p < S.T):
+            self.pos += 1
+            S.nexts.append((p, list(S.cache_state), 'value'))
+            return S.x(p) if self.faithful else S.wrong(p)
+        self.done = True
+        if ctx.branch(S.gen_raises):
+            S.nexts.append((p, list(S.cache_state), 'raise'))
+            raise PyRaise('GenError', note='the wrapped generator raises at position %d' % p)
+        S.nexts.append((p, list(S.cache_state), 'stop'))
+        raise PyRaise('StopIteration')
+
+    def iterate(self, ctx):
+        out = []
+        for _ in range(K_ITEMS):  # the consumer abandons after K_ITEMS
+            try:
+                out.append(self.sym_next(ctx))
+            except PyRaise as e:
+                if e.exc == 'StopIteration':
+                    break
+                e.partial_yields = out
+                raise
+        return out
+
+    def truth(self, ctx):
+        return True
+
+
+class RecursionIter(InProc, Contract):
+    """cache.Recursion.__iter__ against a file system holding a COMPLETE or CLEANLY INTERRUPTED history of an earlier run:
+    item files 0..n-1 hold (log, False, x_i) -- the values the recursion yields with caching disabled --, item file n is
+    missing | empty | cut off (unpickling raises UnpicklingError or IndexError) | the stop marker (then the recursion ends
+    at n), later files are arbitrary stale material.  n, the tail state, the recursion length, the position T at which the
+    recursion ends and whether it ends by StopIteration or by raising are symbolic; the consumer takes at most K_ITEMS
+    items (the `for i in itertools.count()` loop is unrolled that far).
+
+      yields        the values yielded are x_0, x_1, ... -- the uncached sequence --, min(T, K_ITEMS) of them
+      resume        the generator is resumed at most once, exactly when a load fails (never after a stop marker), at the
+                    index of the failing file, with history == the last min(index, length) cached values in order
+      exception     an exception of the generator escapes after exactly T correct values (same position as uncached)
+      store         every computed item p is dumped as (log, False, x_p) at offset 0 of item file p, the end of the
+                    recursion as (log, True, None); cached files are not rewritten; caching is disabled while the generator
+                    runs; recorded logs of cached items are replayed; each file is locked before it is read or written
+    """
+    prop = PROP
+    fn = 'cache:Recursion.__iter__'
+    bounded = 'at most %d items consumed (the loop over items is unrolled %d times); number of cached items, tail state, recursion length, generator length symbolic' % (K_ITEMS, K_ITEMS)
+    max_paths = 3000
+
+    def __init__(self, scenario):
+        self.scenario = scenario  # enabled | disabled
+        self.label = scenario
+
+    def setup(self, cx):
+        S = State(events=[], resumes=[], dumps=[], loads=[], replays=[], cache_state=[], nexts=[], touched=set(), opened=[], xs={}, wrongs={}, stale={}, dirs=[])
+        length, n, T, tail = cx.int('length'), cx.int('ncached'), cx.int('T'), cx.int('tail')
+        gen_raises = cx.bool('gen_raises')
+        cx.assume(length >= 0)
+        cx.assume(n >= 0)
+        cx.assume(T >= n)  # the history was written by an earlier run of the same recursion: it yields at least the n cached items
+        cx.assume(z3.And(tail >= MISSING, tail <= STOPMARK))
+        cx.assume(z3.Implies(tail == STOPMARK, z3.And(T == n, z3.Not(gen_raises))))  # a stop marker is only ever written where the recursion ends
+        S.length, S.n, S.T, S.tail, S.gen_raises = length, n, T, tail, gen_raises
+
+        def x(p):
+            if p not in S.xs:
+                S.xs[p] = SOpaque('x%d' % p)
+            return S.xs[p]
+
+        def wrong(p):
+            if p not in S.wrongs:
+                S.wrongs[p] = SOpaque('not-x%d' % p)
+            return S.wrongs[p]
+        S.x, S.wrong = x, wrong
+
+        def kind_of(ctx, i):
+            """symbolic state of item file i as a z3 Int"""
+            if i not in S.stale:
+                k = ctx.int('stale%d' % i)
+                ctx.assume(z3.And(k >= MISSING, k <= STALE_VALID))
+                S.stale[i] = k
+            return z3.If(i < n, z3.IntVal(STALE_VALID + 1), z3.If(n == i, tail, S.stale[i]))
+        S.truncated = set()
+
+        class ItemFile(Sym):
+            def __init__(s, index):
+                s.index = index
+
+            def getattr(s, ctx, name):
+                if name == 'touch':
+                    return lambda ctx, **k: (S.touched.add(s.index), S.events.append(('touch', s.index)))[1]
+                if name == 'open':
+                    def open_(ctx, mode='r'):
+                        if mode not in ('r+b', 'rb+', 'w+b', 'wb+', 'wb', 'rb'):
+                            raise Unsupported('open mode %r' % (mode,))
+                        if s.index not in S.touched and not mode.startswith('w'):
+                            if ctx.branch(kind_of(ctx, s.index) == MISSING):
+                                raise PyRaise('OSError', note='FileNotFoundError: item file %d does not exist' % s.index)
+                        if mode.startswith('w'):
+                            S.truncated.add(s.index)  # opening for writing empties the file
+                        S.events.append(('open', s.index, mode))
+                        S.opened.append(s.index)
+                        return ItemHandle(S, s.index)
+                    return open_
+                raise Unsupported('path.' + name)
+
+        class DirV(Sym):
+            def __init__(s, key):
+                s.key = key
+
+            def getattr(s, ctx, name):
+                if name == 'mkdir':
+                    return lambda ctx, **k: S.events.append(('mkdir',))
+                raise Unsupported('path.' + name)
+
+            def binop(s, ctx, op, other, reflected):
+                if op == '/' and not reflected and isinstance(other, FormatV) and other.template.count('{') == 1 and len(other.args) == 1 and isinstance(other.args[0], int):
+                    return ItemFile(other.args[0])
+                if op == '/':
+                    raise Unsupported('item file name %r' % (other,))
+                return NotImplemented
+
+        class RootV(Sym):
+            def binop(s, ctx, op, other, reflected):
+                if op == '/' and not reflected:
+                    S.dirs.append(other)
+                    return DirV(other)
+                return NotImplemented
+
+            def is_none(s, ctx):
+                return False
+
+        class Caching:
+            def sym_getattr(s, ctx, name):
+                if name == 'current':
+                    return None if self.scenario == 'disabled' else RootV()
+                raise Unsupported(name)
+
+        class Pickle:
+            def sym_getattr(s, ctx, name):
+                if name == 'load':
+                    def load(ctx, f):
+                        i = f.index
+                        if f.pos != 'start':
+                            raise Unsupported('pickle.load at position %s' % f.pos)
+                        f.pos = 'after-load'
+                        if i in S.truncated:
+                            S.loads.append((i, 'fail'))
+                            raise PyRaise('EOFError')
+                        k = kind_of(ctx, i)
+                        if ctx.branch(k == STALE_VALID + 1):
+                            S.loads.append((i, 'ok'))
+                            return (LogV(S, 'stored%d' % i), False, x(i))
+                        if ctx.branch(k <= EMPTY):
+                            S.loads.append((i, 'fail'))
+                            raise PyRaise('EOFError')
+                        if ctx.branch(k == TRUNC_UNPICKLING):
+                            S.loads.append((i, 'fail'))
+                            raise PyRaise('UnpicklingError')
+                        if ctx.branch(k == TRUNC_INDEX):
+                            S.loads.append((i, 'fail'))
+                            raise PyRaise('IndexError')
+                        if ctx.branch(k == STOPMARK):
+                            S.loads.append((i, 'stop'))
+                            return (LogV(S, 'stored%d' % i), True, None)
+                        S.loads.append((i, 'stale'))
+                        return (LogV(S, 'stale%d' % i), False, SOpaque('stale-value%d' % i))
+                    return load
+                if name == 'dump':
+                    def dump(ctx, obj, f):
+                        S.dumps.append((f.index, f.pos, obj))
+                        f.pos = 'after-dump'
+                    return dump
+                if name == 'UnpicklingError':
+                    from pyvc.interp import ExcClass
+                    return ExcClass('UnpicklingError')
+                raise Unsupported('pickle.' + name)
+
+        class Disable(Sym):
+            def sym_enter(s, ctx):
+                S.cache_state.append('disabled')
+
+            def sym_exit(s, ctx):
+                S.cache_state.pop()
+
+        class Log:
+            def sym_getattr(s, ctx, name):
+                if name == 'RecordLog':
+                    return lambda ctx: LogV(S, 'new')
+                if name == 'add':
+                    return lambda ctx, l: l
+                return lambda ctx, *a, **k: None
+
+        class Itertools:
+            def sym_getattr(s, ctx, name):
+                if name == 'count':
+                    return lambda ctx: list(range(K_ITEMS))
+                raise Unsupported('itertools.' + name)
+
+        def resume_index(ctx, o, history, index):
+            snap = list(history) if isinstance(history, (list, tuple)) else history
+            S.resumes.append((snap, index, type(history).__name__))
+            return GenV(S, index if isinstance(index, int) else 0, self.history_ok(S, snap, index) is True)
+
+        class SelfV(SObj):
+            def pytype(s, ctx):
+                return SObj('RecursionSubclass', attrs={'length': SInt(length)})
+        S.HKEY = SOpaque('hex-of-nutils-hash')
+        S.self = SelfV('Recursion', attrs={'__nutils_hash__': SObj('bytes', methods={'hex': lambda ctx, o: S.HKEY})}, methods={'resume_index': resume_index})
+        S.args = (S.self,)
+        S.globals = {'caching': Caching(), 'pickle': Pickle(), 'log': Log(), 'disable': lambda ctx: Disable(), 'itertools': Itertools(),
+                     '_lock_file': lambda ctx, f: S.events.append(('lock', f.index))}
+        cx.format_hook = lambda template, a, k: FormatV(template, a)
+        return S
+
+    def replay(self, ob):
+        import json
+        if not self.replay_once(ob):
+            return None
+        return _native('run_recursion(%s, %r)' % (json.dumps({k: str(v) for k, v in (ob.model or {}).items() if not k.startswith('k!')}), ob.clause))
+
+    @staticmethod
+    def history_ok(S, snap, index):
+        """ground part: `snap` is a list of the h values x[index-h..index) in order (h <= index)"""
+        if not isinstance(snap, list) or not isinstance(index, int):
+            return False
+        h = len(snap)
+        return h <= index and all(v is S.x(index - h + j) for j, v in enumerate(snap))
+
+    def facts(self, cx, S, yields):
+        """(clause, formula) pairs that hold on every path, returning or raising"""
+        B = z3.BoolVal
+        K = K_ITEMS
+        out = []
+        ys = list(yields) if isinstance(yields, (list, tuple)) else None
+        out.append(('yields-are-the-uncached-values-in-order', B(ys is not None and all(v is S.x(p) for p, v in enumerate(ys)))))
+        if self.scenario == 'disabled':
+            out.append(('disabled-resumes-from-scratch-and-touches-no-file', B(len(S.resumes) == 1 and S.resumes[0][0] == [] and S.resumes[0][1] == 0 and not S.events and not S.loads and not S.dumps)))
+            return out, ys
+        fails = [i for i, r in S.loads if r == 'fail']
+        oks = [i for i, r in S.loads if r in ('ok', 'stop')]
+        first_fail = fails[0] if fails else None
+        out.append(('resumed-at-most-once', B(len(S.resumes) <= 1)))
+        exp_res = first_fail is not None
+        res_ok = (len(S.resumes) == 1) == exp_res and all(r[1] == first_fail for r in S.resumes) and not any(r == 'stale' for _, r in S.loads) \
+            and S.loads == [(i, 'ok') for i in range(len(S.loads) - 1)] + [(len(S.loads) - 1, S.loads[-1][1])] if S.loads else not S.resumes
+        out.append(('resumed-exactly-when-a-load-fails-at-that-index', B(bool(res_ok))))
+        if S.resumes:
+            snap, idx, tname = S.resumes[0]
+            out.append(('resume-history-holds-the-last-cached-values-in-order', B(tname == 'list' and self.history_ok(S, snap, idx) is True)))
+            if isinstance(snap, list) and isinstance(idx, int):
+                out.append(('resume-history-has-min-index-length-items', z3.IntVal(len(snap)) == z3.If(idx < S.length, z3.IntVal(idx), S.length)))
+        out.append(('cached-logs-replayed-in-order', B(S.replays == ['stored%d' % i for i in oks])))
+        # what must have been stored: one record per generator step, at offset 0 of the file with the step's index
+        exp, ok_steps = [], True
+        for p, cs, what in S.nexts:
+            if what == 'value':
+                exp.append((p, 'start', False, S.x(p)))
+            elif what == 'stop':
+                exp.append((p, 'start', True, None))
+            elif what == 'after-end':
+                ok_steps = False
+        got = []
+        for i, pos, obj in S.dumps:
+            if isinstance(obj, tuple) and len(obj) == 3 and isinstance(obj[0], LogV) and obj[0].tag == 'new' and isinstance(obj[1], bool):
+                got.append((i, pos, obj[1], obj[2]))
+            else:
+                got.append((i, pos, 'malformed', obj))
+        same = len(got) == len(exp) and all(g[:3] == e[:3] and g[3] is e[3] for g, e in zip(got, exp))
+        steps_consecutive = [p for p, _, _ in S.nexts] == list(range(first_fail, first_fail + len(S.nexts))) if first_fail is not None else not S.nexts
+        out.append(('computed-items-stored-at-offset-0-of-their-own-file', B(bool(same and ok_steps and steps_consecutive))))
+        out.append(('caching-disabled-while-the-generator-runs', B(all(cs == ['disabled'] for _, cs, _ in S.nexts))))
+        # per file: touch/open, lock, then load/dump, then close; files 0,1,2,... each opened once
+        locked = True
+        for i in set(S.opened):
+            ev = [e for e in S.events if len(e) > 1 and e[1] == i]
+            kinds = [e[0] for e in ev]
+            locked = locked and 'lock' in kinds and 'enter' in kinds and kinds.index('enter') < kinds.index('lock') and kinds[-1] == 'close' and kinds.count('open') == 1
+        first_access = {}
+        order = [('lock', e[1]) for e in S.events if e[0] == 'lock']
+        acc = [i for i, _ in S.loads] + [i for i, _, _ in S.dumps]
+        locked = locked and all(('lock', i) in order for i in acc)
+        out.append(('each-item-file-locked-before-use-and-closed', B(bool(locked and S.opened == list(range(len(S.opened)))))))
+        out.append(('one-directory-keyed-by-the-object-hash', B(len(S.dirs) == 1 and S.dirs[0] is S.HKEY)))
+        return out, ys
+
+    def ensures(self, cx, S, result):
+        out, ys = self.facts(cx, S, result)
+        K = z3.IntVal(K_ITEMS)
+        out.append(('yields-min-T-K-items', z3.IntVal(len(ys) if ys is not None else -1) == z3.If(S.T < K, S.T, K)))
+        out.append(('returns-normally-only-if-the-recursion-does', z3.Or(z3.Not(S.gen_raises), S.T >= K)))
+        return out
+
+    def raises(self, cx, S, e):
+        if e.exc != 'GenError':
+            return False
+        ys = getattr(e, 'partial_yields', None)
+        out, ys = self.facts(cx, S, ys)
+        conj = [g if not isinstance(g, bool) else z3.BoolVal(g) for _, g in out]
+        return z3.And(S.gen_raises, S.T < K_ITEMS, z3.IntVal(len(ys) if ys is not None else -1) == S.T, *conj)
+
+
+class ResumeIndex(InProc, Contract):
+    """Recursion.resume_index (default): hands the SAME history to self.resume and returns its generator."""
+    prop = PROP
+    fn = 'cache:Recursion.resume_index'
+
+    def setup(self, cx):
+        S = State(calls=[])
+        S.hist = [SOpaque('h0'), SOpaque('h1')]
+        S.gen = SOpaque('generator')
+
+        def resume(ctx, o, history):
+            S.calls.append((history, list(history) if isinstance(history, list) else None))
+            return S.gen
+        S.args = (SObj('Recursion', methods={'resume': resume}), S.hist, 2)
+        return S
+
+    def ensures(self, cx, S, result):
+        ok = result is S.gen and len(S.calls) == 1 and S.calls[0][0] is S.hist and S.calls[0][1] is not None and len(S.calls[0][1]) == 2 \
+            and all(a is b for a, b in zip(S.calls[0][1], S.hist))
+        return [('resumes-with-the-history-it-was-given', z3.BoolVal(bool(ok)))]
+
+
+def _context_contracts():
+    from contracts import c18_contexts
+    return c18_contexts.contracts()
+
+
 def contracts():
-    return [Wrapper(s) for s in ('disabled', 'hit', 'hit-old', 'miss-eof', 'miss-unpickling', 'miss-index', 'miss-old-fail')] + [KeyOfFunction()]
+    return [Wrapper(s) for s in ('disabled', 'hit', 'hit-old', 'miss-eof', 'miss-unpickling', 'miss-index', 'miss-old-fail')] + [KeyOfFunction()] \
+        + [WrapperTwice(s) for s in ('over-longer-old-format-entry', 'over-longer-garbage', 'into-empty-file')] \
+        + [RecursionIter('enabled'), RecursionIter('disabled'), ResumeIndex()] + _context_contracts()
 
 
 TRUSTED = ['pyvc symbolic executor on the nested closure cache.function.wrapper; closure variables func, func_key, canonicalize supplied by the contract',
-           'pickle.load either returns the stored object or raises EOFError/UnpicklingError/IndexError (ASSUMED; which exception a cut-off stream raises is exactly what a crash-point analysis would have to establish)',
+           'pickle.load on a file positioned at the start of a pickle returns that object and reads nothing beyond its STOP opcode (trailing bytes of an older, longer entry are never looked at); on an empty file it raises EOFError; pickle.dump writes one complete pickle at the current position and does not truncate (cross-checked natively on random entries, native/axioms.py)',
+           'ASSUMED: a cut-off (truncated) or otherwise unreadable entry makes pickle.load raise EOFError, UnpicklingError or IndexError -- the classes the code catches.  Cross-checked for EVERY truncation point of random entries (native/axioms.py: only EOFError/UnpicklingError occur with the C unpickler); NOT true for arbitrary corrupt bytes (notes/C18-c18.md)',
+           'file system as a state machine per item file: missing | empty | cut-off | complete entry | stop marker; touch() creates a missing file empty; open("r+b") of a missing file raises OSError; open for writing empties it; seek(0) returns to offset 0',
+           'contextlib.contextmanager: the with-block runs at the single yield of the generator and its exception is raised there (pyvc runs the block at the yield point); functools.wraps and util.defaults_from_env return the function unchanged (no NUTILS_CACHE* environment variables); pathlib.Path(x).expanduser() is Path(x)',
+           'fcntl.flock(f, LOCK_EX) blocks until it holds an exclusive lock tied to the open file description (mutual exclusion itself is the kernel\'s and is ASSUMED)',
            'injectivity / order-independence of the key follows from the block structure by the C17 arguments (SHA-1 idealised)']
-ASSUMPTIONS = ['complete histories only: the cache file is either absent/empty/corrupt-in-a-caught-way or holds one complete entry at offset 0',
-               'argument_canonicalizer returns the canonical (args, kwargs); file locking provides mutual exclusion']
-NOT_COVERED = ['every truncation point of a pickle, partial overwrite of a longer stale entry, flock mutual exclusion across processes, resumption of Recursion after arbitrary partial runs: crash points, histories and schedules -- this family has nothing to say',
-               'cache.Recursion history window (DESIGN 4.18; not built)']
+ASSUMPTIONS = ['histories are COMPLETE or CLEANLY INTERRUPTED: a cache.function file is absent/empty/unreadable-in-a-caught-way or holds one complete entry at offset 0 (possibly followed by the tail of an older longer entry); a Recursion directory holds n complete items written by an earlier run of the same recursion, then a missing/empty/cut-off item or the stop marker, then arbitrary stale files',
+               'the wrapped function / recursion is deterministic (the docstrings\' requirement): resume_index(history, index) given the last min(index, length) values continues the sequence that the recursion yields from scratch; given another history it yields something else',
+               'BOUNDED: the consumer of Recursion.__iter__ takes at most 4 items (loop over item files unrolled); number of cached items, recursion length, position and manner of the recursion\'s end are symbolic',
+               'argument_canonicalizer returns the canonical (args, kwargs); file locking provides mutual exclusion; type(self).length >= 0']
+NOT_COVERED = ['being KILLED at an arbitrary byte while OVERWRITING a longer stale entry (prefix of the new pickle followed by old bytes), arbitrary corrupt bytes (pickle.load can then raise ValueError/TypeError/UnicodeDecodeError/... or return a wrong object), flock mutual exclusion across processes and concurrent callers: crash points and schedules -- this family has nothing to say',
+               'Recursion beyond 4 consumed items (no loop invariant over the item loop; the engine evaluates generators eagerly)',
+               'msvcrt locking (Windows), the retry loop of _lock_file_msvcrt']
